@@ -184,6 +184,27 @@ class Probe(SourceProxy):
         global_probes.remove(self)
         self._uninstall_tooling()
 
+    def __exit__(self, exc_type=None, exc=None, tb=None):
+        if self._root is not self:
+            self._root.__exit__(exc_type, exc, tb)
+            return
+
+        # A subscriber may raise an error upon completion (e.g. min() when
+        # there were no elements): complete the others and deactivate the
+        # probe regardless, then propagate the error.
+        errors = []
+        try:
+            for obs in list(self._observers):
+                try:
+                    obs.on_completed()
+                except Exception as error:
+                    errors.append(error)
+        finally:
+            self._observers.clear()
+            self._exit()
+        if errors:
+            raise errors[0]
+
     def activate(self):
         """Activate this probe."""
         self.__enter__()
